@@ -13,6 +13,7 @@ from linear_operator.operators import (
     InterpolatedLinearOperator,
     LinearOperator,
     LowRankRootAddedDiagLinearOperator,
+    LowRankRootLinearOperator,
     MaskedLinearOperator,
     MatmulLinearOperator,
     RootLinearOperator,
@@ -904,6 +905,9 @@ class SGPRPredictionStrategy(DefaultPredictionStrategy):
         # Edge case: test_x and train_x are the same - test_train_covar is a LowRankRootAddedDiagLinearOperator
         elif isinstance(test_train_covar, LowRankRootAddedDiagLinearOperator):
             L = test_train_covar._linear_op.root.to_dense()
+        # Same edge case without the diagonal correction (settings.sgpr_diagonal_correction(False))
+        elif isinstance(test_train_covar, LowRankRootLinearOperator):
+            L = test_train_covar.root.to_dense()
         else:
             # We should not hit this point of the code - this is to catch potential bugs in GPyTorch
             raise ValueError(
